@@ -100,10 +100,10 @@ pub fn inits(tier: Tier) -> Vec<Init> {
         preds: vec![r1(&[1.0], 0.0), r1(&[1.0], 1.0), r1(&[-1.0], -2.0), r1(&[-1.0], 0.0)],
         terms: vec![r1(&[1.0], 0.0), r1(&[-1.0], 1.0)],
         max_depth: 3,
-        max_nodes: if tier == Tier::Quick { 7 } else { 9 },
+        max_nodes: if tier == Tier::Quick { 7 } else { 8 },
         partial: true,
     };
-    let keep = if tier == Tier::Quick { 331 } else { 23 };
+    let keep = if tier == Tier::Quick { 331 } else { 211 };
     for (i, t) in g1.all().into_iter().enumerate() {
         if t.n_nodes() <= 3 || i % keep == 0 {
             v.push(Init::Spec(t));
@@ -114,10 +114,10 @@ pub fn inits(tier: Tier) -> Vec<Init> {
         preds: vec![r1(&[1.0, 0.0], 0.0), r1(&[1.0, -1.0], 0.0), r1(&[-1.0, 0.0], -1.0), r1(&[1.0, 1.0], 1.0)],
         terms: vec![Aff::identity(2), Aff::new(vec![vec![0.0, 1.0], vec![1.0, 0.0]], vec![1.0, 0.0])],
         max_depth: 3,
-        max_nodes: if tier == Tier::Quick { 7 } else { 9 },
+        max_nodes: if tier == Tier::Quick { 7 } else { 8 },
         partial: true,
     };
-    let keep2 = if tier == Tier::Quick { 701 } else { 53 };
+    let keep2 = if tier == Tier::Quick { 701 } else { 397 };
     for (i, t) in g2.all().into_iter().enumerate() {
         if t.n_nodes() <= 3 || i % keep2 == 0 {
             v.push(Init::Spec(t));
@@ -139,7 +139,11 @@ pub fn inits(tier: Tier) -> Vec<Init> {
 pub fn limit_for(init: &Init, tier: Tier) -> usize {
     let maxlen = match tier { Tier::Quick => 3, Tier::Thorough => 4 };
     let simple = matches!(init, Init::FromAff(_) | Init::FromPoly(..));
-    if simple { maxlen } else { maxlen - 1 }
+    if simple {
+        if tier == Tier::Thorough && init.in_dim() != 1 { 3 } else { maxlen }
+    } else {
+        2
+    }
 }
 
 /// successors of a history (dimension-compatible operations)
@@ -371,7 +375,7 @@ pub fn run(tier: Tier) -> Report {
     rep.absorb(total);
     rep.set("bound", match tier {
         Tier::Quick => "histories of <= 3 operations (<= 2 from generator trees) over {infeasible_elimination, compose pruned/unpruned with 11-13 right operands, apply_func with 4 maps} ending in a pruning operation, from 1-D/2-D generator trees (<= 7 nodes, parallel/concurrent predicates, partial) and from_aff/from_poly roots",
-        Tier::Thorough => "histories of <= 4 operations (<= 3 from generator trees), generator trees with <= 9 nodes",
+        Tier::Thorough => "histories of <= 4 operations from one-input from_aff/from_poly roots, <= 3 from two-input ones, <= 2 from generator trees with <= 8 nodes (denser selection)",
     });
     rep.assume("a disagreement counts only where the closed region of the unpruned route is fat (some point with slack >= 1e-6 * max(1,|row|_1) in every row)");
     rep
